@@ -197,4 +197,26 @@ theorem feed_group (base : Nat) (hb : isCombining base = false) (g : Group) (t :
   funext y' x'
   by_cases h : y' = t.cy ∧ x' = t.cx <;> simp [h]
 
+theorem feedAll_append (t : Term) (a b : List Tok) : t.feedAll (a ++ b) = (t.feedAll a).feedAll b := by
+  simp [Term.feedAll, List.foldl_append]
+
+theorem feed_groups (base : Nat) (hb : isCombining base = false) (gs : List Group) : ∀ (t : Term),
+    (∀ g ∈ gs, (∀ tok ∈ g.1, IsSgr tok) ∧ ∀ i ∈ g.2, i < 297) → t.cx + gs.length ≤ t.w →
+    t.feedAll (groupsToks base gs) =
+      { writeRow t t.cy t.cx (groupCells base t.sgr gs) with cx := t.cx + gs.length, sgr := sgrAfterGroups t.sgr gs } := by
+  induction gs with
+  | nil => intro t _ _; simp [groupsToks, Term.feedAll, writeRow, groupCells, sgrAfterGroups]
+  | cons g r ih =>
+    intro t h hx
+    have hg := h g (by simp)
+    have hr : ∀ g ∈ r, (∀ tok ∈ g.1, IsSgr tok) ∧ ∀ i ∈ g.2, i < 297 := fun g' hg' => h g' (by simp [hg'])
+    simp only [List.length_cons] at hx
+    have hgs : groupsToks base (g :: r) = groupToks base g ++ groupsToks base r := by simp [groupsToks]
+    rw [hgs, feedAll_append, feed_group base hb g t hg.1 hg.2 (by omega)]
+    rw [ih _ hr (by simp; omega)]
+    simp only [groupCells, sgrAfterGroups, writeRow, List.length_cons]
+    rw [writeRow_with]
+    have : t.cx + 1 + r.length = t.cx + (r.length + 1) := by omega
+    simp [this]
+
 end Tup.Ph
